@@ -132,13 +132,26 @@ class Popen:
             )
             self.sentinel = parent_r
 
+            # The child has its own copies of its ends of the pipes: close
+            # ours before writing, so that the write fails instead of
+            # blocking for ever if the child dies before reading its payload.
+            os.close(child_r)
+            child_r = None
+            os.close(child_w)
+            child_w = None
+
             method = "getbuffer"
             if not hasattr(fp, method):
                 method = "getvalue"
-            with os.fdopen(parent_w, "wb") as f:
-                # the file object owns the descriptor from now on
-                parent_w = None
-                f.write(getattr(fp, method)())
+            try:
+                with os.fdopen(parent_w, "wb") as f:
+                    # the file object owns the descriptor from now on
+                    parent_w = None
+                    f.write(getattr(fp, method)())
+            except BrokenPipeError:
+                # The child died before reading its payload: its death is
+                # reported through the sentinel, like any other.
+                pass
             self.pid = pid
         finally:
             if parent_r is not None:
